@@ -180,7 +180,11 @@ class ConstrainedFrontend(Frontend):
 
         splitted = []
         for i in constraints:
-            splitted.extend(list(i.args) if i.op == "And" else [i])
+            # (a conjunction that must not be simplified stays in one piece: its conjuncts would not carry the annotation)
+            if i.op == "And" and not any(isinstance(a, SimplificationAvoidanceAnnotation) for a in i.annotations):
+                splitted.extend(i.args)
+            else:
+                splitted.append(i)
 
         log.debug("... splitted of size %d", len(splitted))
 
